@@ -139,6 +139,31 @@ impl Write for SWriter<'_> {
     }
 }
 
+/// write(2) on descriptor 1/2 answered by the script (the print path's "writer" is the kernel)
+struct PrintKern<'a> {
+    script: std::cell::RefCell<Script<'a>>,
+    accepted: std::cell::RefCell<Vec<u8>>,
+    fd: usize,
+}
+
+impl simk::sched::Kernel for PrintKern<'_> {
+    fn syscall(&self, nr: usize, a: [usize; 6]) -> usize {
+        if nr != sc::nr::WRITE || a[0] != self.fd {
+            return simk::kern::neg(9);
+        }
+        match self.script.borrow_mut().next(a[2], 0, true) {
+            Resp::Bytes(k) => {
+                let b = unsafe { std::slice::from_raw_parts(a[1] as *const u8, k) };
+                self.accepted.borrow_mut().extend_from_slice(b);
+                k
+            }
+            Resp::Eof => 0,
+            Resp::Eintr => simk::kern::neg(4),
+            Resp::Err(e) => simk::kern::neg(e),
+        }
+    }
+}
+
 const SIZES: &[usize] = &[0, 1, 2, 15, 16, 17, 31, 32, 33, 34, 47, 48, 63, 64, 65, 95, 96, 97, 127, 128, 129, 200, 255, 256, 257, 1000, 4095, 4096, 4097, 10000];
 
 fn gen_size(dec: &mut Dec) -> usize {
@@ -194,7 +219,7 @@ fn script_json(log: &[(usize, Resp)]) -> Value {
 
 fn run_case(dec: &mut Dec, record: bool) -> Outcome {
     let mut trace = Trace::new(record);
-    let op = dec.choose(K::Op, 5);
+    let op = dec.choose(K::Op, 6);
     let (p_eintr, p_err, p_eof, short_mode, eintr_left) = mk_script(dec);
     let mut counters: Vec<(&'static str, u64)> = Vec::new();
     let mk = |dec| Script { dec, p_eintr, p_err, p_early_eof: p_eof, short_mode, eintr_left, log: Vec::new(), terminal: None, calls_after_terminal: 0, eof_seen: false };
@@ -333,6 +358,33 @@ fn run_case(dec: &mut Dec, record: bool) -> Outcome {
             sample = json!({"op": "read_exact", "n": n, "available": total, "result": format!("{res:?}"), "script": script_json(&rd.script.log)});
             log_out = std::mem::take(&mut rd.script.log);
         }
+        5 => {
+            // the print!/eprintln! path: unix::print's writer loops over write(2) on fd 1/2 itself
+            let n = gen_size(dec).min(3000);
+            let text = String::from_utf8(gen_utf8(dec, n)).unwrap();
+            let fd_is_err = dec.chance(K::Arg, 1, 2);
+            let k = PrintKern { script: std::cell::RefCell::new(mk(dec)), accepted: std::cell::RefCell::new(Vec::new()), fd: if fd_is_err { 2 } else { 1 } };
+            let expect = format!("<{text}|{:>6}>", 4242).into_bytes();
+            let mut sim = simk::sched::Sim::new(Dec::from_list(Vec::new()), simk::sched::SimCfg::default());
+            sim.set_kernel(&k);
+            let res = simk::sched::with_installed(&mut sim, || {
+                use core::fmt::Write as _;
+                let mut w = if fd_is_err { tiny_std::unix::print::__STDERR_WRITER } else { tiny_std::unix::print::__STDOUT_WRITER };
+                w.write_fmt(format_args!("<{text}|{:>6}>", 4242))
+            });
+            let script = k.script.into_inner();
+            let accepted = k.accepted.into_inner();
+            let failed = script.terminal.is_some() || script.log.iter().any(|(_, r)| matches!(r, Resp::Eintr | Resp::Eof));
+            if !expect.starts_with(&accepted) {
+                viol = v("print|wrong-bytes", format!("the descriptor received {} bytes that are not a prefix of the formatted text (duplicated, skipped or reordered)", accepted.len()));
+            } else if res.is_ok() && !failed && accepted.len() != expect.len() {
+                viol = v("print|bytes-dropped", format!("the writer reported success after delivering {} of {} bytes although every write(2) succeeded (short writes only)", accepted.len(), expect.len()));
+            } else if res.is_err() && !failed {
+                viol = v("print|spurious-error", "the writer reported an error although every write(2) succeeded".to_string());
+            }
+            sample = json!({"op": "print path (unix::print writer over write(2))", "bytes": expect.len(), "result": format!("{res:?}"), "script": script_json(&script.log)});
+            log_out = script.log;
+        }
         _ => {
             // write_all / write_fmt
             let use_fmt = op == 4;
@@ -436,7 +488,7 @@ impl Check for C15 {
         }
     }
     fn rule(&self) -> String {
-        "each case = one seeded script against one helper (read_to_end, read_to_string, read_exact, write_all, write_fmt): sizes drawn around the 32-byte growth/probe thresholds, initial Vec/String length and capacity incl. exact fit, UTF-8 data with multi-byte characters cut anywhere by short reads, optional invalid byte; every reader/writer call answers by decision with k bytes (1, all, half, random), EOF/0, EINTR (budgeted) or a terminal errno; per-run swarm of fault rates. non-trivial = >=2 calls and at least one short transfer, EINTR or error; distinct = hash of (helper, sequence of (offered length, response))".into()
+        "each case = one seeded script against one helper (read_to_end, read_to_string, read_exact, write_all, write_fmt, and the print!/eprintln! writer of unix::print whose write(2) calls on fd 1/2 are answered by the script at the sc seam): sizes drawn around the 32-byte growth/probe thresholds, initial Vec/String length and capacity incl. exact fit, UTF-8 data with multi-byte characters cut anywhere by short reads, optional invalid byte; every reader/writer call answers by decision with k bytes (1, all, half, random), EOF/0, EINTR (budgeted) or a terminal errno; per-run swarm of fault rates. non-trivial = >=2 calls and at least one short transfer, EINTR or error; distinct = hash of (helper, sequence of (offered length, response))".into()
     }
     fn assumptions(&self) -> Vec<String> {
         vec![
